@@ -12,7 +12,7 @@
    [sound s] = every entry of the store hashes to the CID it is stored under. *)
 From Lib Require Import Bytes.
 From Model Require Import C01_ChainSync C02_FetchVerify.
-From Proofs Require Import C02_FetchVerify.
+From Proofs Require Import C02_FetchVerify Compose_C02_C01.
 Open Scope N_scope.
 
 (* After ANY sequence of syncs (any selectors, stops, depth limits, segment sizes, hooks,
@@ -95,3 +95,62 @@ Theorem truncated_digest :
       firstn (cid_len c) (H (cid_fn c) b) = cid_digest c.
 Proof. exact truncated_digest_proved. Qed.
 Print Assumptions truncated_digest.
+
+(* ---- an honest publisher: C02 computes exactly what C01 computes ---- *)
+
+(* [content c] is the genuine body of block c: it hashes to c and decodes to c's links in
+   the C01 world w.  [genuine] = what an honest publisher answers (the body if it serves the
+   block, else no 200 answer); [honest_on resp L] = the answers to the requests listed in L
+   are genuine; [attach s] = the C01 store s with the bodies attached; [store_wf] = stored
+   blocks are blocks of the world.  Premise of honesty: only for the requests C01's walk
+   makes (C01 determines which they are). *)
+Theorem honest_fwalk_is_walk :
+  forall (body : Type) (hashes_to : body -> cid -> bool) (links_of : body -> option (list edge))
+         (w : world) (content : cid -> body),
+    (forall c, hashes_to (content c) c = true) ->
+    (forall c, links_of (content c) = dag_get (w_dag w) c) ->
+    forall resp v stop fuel lim c reqs s,
+      store_wf w s = true ->
+      let o := walk fuel w v stop lim c s in
+      honest_on body w content resp (reqs ++ o_reqs o) ->
+      fwalk body hashes_to links_of fuel resp v stop lim c reqs (attach body content s) =
+        FO body (o_order o) (reqs ++ o_reqs o) (attach body content (o_store o)) (conv_res (o_res o)) /\
+      store_wf w (o_store o) = true.
+Proof. exact honest_fwalk_is_walk_proved. Qed.
+Print Assumptions honest_fwalk_is_walk.
+
+(* ... and handler.handle likewise, for every segment size (both branches): hook log,
+   request log, count, error and store (with bodies) are C01's *)
+Theorem honest_fhandle_is_handle :
+  forall (body : Type) (hashes_to : body -> cid -> bool) (links_of : body -> option (list edge))
+         (w : world) (content : cid -> body),
+    (forall c, hashes_to (content c) c = true) ->
+    (forall c, links_of (content c) = dag_get (w_dag w) c) ->
+    forall resp q s,
+      store_wf w s = true ->
+      let o := handle w (fs_view q) (fs_stop q) (fs_lim q) (fs_segdl q) (fs_hook q) (fs_head q) s in
+      honest_on body w content resp (h_reqs o) ->
+      fhandle body hashes_to links_of (walk_fuel w) resp q (attach body content s) = conv_hout body content o.
+Proof. exact honest_fhandle_is_handle_proved. Qed.
+Print Assumptions honest_fhandle_is_handle.
+
+(* Hence C02's sync of a chain from an honest publisher meets C01's specification: for every
+   chain, head, stop, depth limit, segment size and local store it reports exactly
+   [segment], requests exactly its missing blocks, stores them (with their genuine bodies),
+   counts them and returns no error -- the right-hand side of sync_ad_chain_meets_spec. *)
+Theorem honest_sync_meets_c01_spec :
+  forall (body : Type) (hashes_to : body -> cid -> bool) (links_of : body -> option (list edge))
+         (content : cid -> body) k extra ch pub head stop lim segdl s resp,
+    let w := chain_world k extra ch pub in
+    (forall c, hashes_to (content c) c = true) ->
+    (forall c, links_of (content c) = dag_get (w_dag w) c) ->
+    chain_wf k extra ch = true -> In head ch -> is_stop stop head = false ->
+    store_wf w s = true ->
+    let seg := segment ch head stop lim in
+    avail pub s seg = true ->
+    honest_on body w content resp (missing s seg) ->
+    fhandle body hashes_to links_of (walk_fuel w) resp (FSYNC (kind_view k) stop lim segdl HNominate head)
+            (attach body content s) =
+    FHO body seg (missing s seg) (attach body content (rev (missing s seg) ++ s)) (length seg) None.
+Proof. exact honest_sync_meets_c01_spec_proved. Qed.
+Print Assumptions honest_sync_meets_c01_spec.
